@@ -248,7 +248,7 @@ def check_relabel(rng, acc):
 
 
 def plan(tier, seed):
-    n = 20000 if tier == "quick" else 200000
+    n = 100000 if tier == "quick" else 600000
     return [{"kind": "cases", "n": n // 16, "seed": common.seed_for(PROP, tier, seed, i)}
             for i in range(16)]
 
